@@ -252,21 +252,126 @@ package core
 // is met gets exactly its request); only members of `nodes` change. `modifies inferred`: the write-set is
 // quotaNode.runtimeQuota plus elements of slices ([]*quotaNode by append, and what computeHamiltonDeltas allocates).
 // Not expressible (needs a sum): the amounts handed out add up to totalRes minus what is carried into the next round.
-// requires #int64 is the type range of the int64 parameter: integers are mathematical in this mode, so the recursive
-// call cannot re-establish it for the local toPartitionResource (a sum of surpluses).
+// `option arith ranged`: integer values are ASSUMED to stay in their type range (no overflow is proved here; the sums
+// toPartitionResource / needAdjustTotalSharedWeight cannot be bounded without a sum in the spec language). It supplies
+// totalRes < 2^63 for computeHamiltonDeltas, also at the recursive call.
 //@ func (*quotaTree).iterationForRedistribution [C02]
-//@   requires #int64: totalRes < 9223372036854775808
+//@   option arith ranged
 //@   requires forall j int :: 0 <= j && j < len(nodes) ==> nodes[j] != nil && 0 <= nodes[j].sharedWeight && nodes[j].sharedWeight <= totalSharedWeight
 //@   requires #below: forall j int :: 0 <= j && j < len(nodes) ==> nodes[j].runtimeQuota <= nodes[j].request
 //@   ensures #monotone: forall q *quotaNode :: q.runtimeQuota >= old(q.runtimeQuota)
 //@   ensures #capped: forall q *quotaNode :: q.runtimeQuota <= max(old(q.runtimeQuota), q.request)
 //@   ensures #met: forall j int :: 0 <= j && j < len(nodes) ==> old(nodes[j]).runtimeQuota <= old(nodes[j]).request
 //@   ensures #members: forall q *quotaNode :: q.runtimeQuota != old(q.runtimeQuota) ==> (exists j int :: 0 <= j && j < len(nodes) && old(nodes[j]) == q)
+//@   ensures #floorshare: totalSharedWeight > 0 && totalRes > 0 ==> (forall j int :: 0 <= j && j < len(nodes) ==> old(nodes[j]).runtimeQuota >= min(old(nodes[j]).request, old(nodes[j].runtimeQuota) + hbase(old(nodes[j]).sharedWeight, totalRes, totalSharedWeight)))
 //@   modifies inferred
-//@   loop 1 invariant 0 <= $i && $i <= len(nodes) && len(deltas) == len(nodes) && fresh(needAdjustQuotaNodes)
+//@   option nopanic all
+//@   loop 1 invariant 0 <= $i && $i <= len(nodes) && len(deltas) == len(nodes) && fresh(needAdjustQuotaNodes) && needAdjustTotalSharedWeight >= 0
 //@   loop 1 invariant forall j int :: 0 <= j && j < len(nodes) ==> nodes[j] == old(nodes[j])
-//@   loop 1 invariant forall j int :: 0 <= j && j < len(nodes) ==> nodes[j].runtimeQuota <= nodes[j].request
+//@   loop 1 invariant forall j int :: 0 <= j && j < len(nodes) ==> old(nodes[j]).runtimeQuota <= old(nodes[j]).request
 //@   loop 1 invariant forall k int :: 0 <= k && k < len(needAdjustQuotaNodes) ==> needAdjustQuotaNodes[k] != nil && 0 <= needAdjustQuotaNodes[k].sharedWeight && needAdjustQuotaNodes[k].sharedWeight <= needAdjustTotalSharedWeight
-//@   loop 1 invariant forall k int :: 0 <= k && k < len(needAdjustQuotaNodes) ==> (exists j int :: 0 <= j && j < $i && nodes[j] == needAdjustQuotaNodes[k])
+//@   loop 1 invariant forall k int :: 0 <= k && k < len(needAdjustQuotaNodes) ==> (exists j int :: 0 <= j && j < $i && old(nodes[j]) == needAdjustQuotaNodes[k])
 //@   loop 1 invariant forall q *quotaNode :: old(q.runtimeQuota) <= q.runtimeQuota && q.runtimeQuota <= max(old(q.runtimeQuota), q.request)
-//@   loop 1 invariant forall q *quotaNode :: q.runtimeQuota != old(q.runtimeQuota) ==> (exists j int :: 0 <= j && j < $i && nodes[j] == q)
+//@   loop 1 invariant forall q *quotaNode :: q.runtimeQuota != old(q.runtimeQuota) ==> (exists j int :: 0 <= j && j < $i && old(nodes[j]) == q)
+//@   loop 1 invariant #floorshare: forall j int :: 0 <= j && j < $i ==> old(nodes[j]).runtimeQuota >= min(old(nodes[j]).request, old(nodes[j].runtimeQuota) + hbase(old(nodes[j]).sharedWeight, totalRes, totalSharedWeight))
+
+// the guaranteed minimum of a sibling: max(min, guarantee)
+//@ spec func qmin(x *quotaNode) int64 = max(x.min, x.guarantee)
+
+// Data-structure invariant of quotaTree (established by NewQuotaTree, kept by insert/erase/update*): every entry is a
+// non-nil node and no node object is stored under two names.
+//@ spec func treeOK(qt *quotaTree) bool = qt != nil && qt.quotaNodes != nil && (forall k string :: {has(qt.quotaNodes, k)} has(qt.quotaNodes, k) ==> qt.quotaNodes[k] != nil) && (forall k string, l string :: {qt.quotaNodes[k], qt.quotaNodes[l]} has(qt.quotaNodes, k) && has(qt.quotaNodes, l) && k != l ==> qt.quotaNodes[k] != qt.quotaNodes[l])
+
+// Value domain of the inputs: shared weights are non-negative (the ElasticQuota webhook rejects negative entries in the
+// shared-weight annotation and in spec.max, its default). min / guarantee / request are unconstrained.
+//@ spec func treeDomain(qt *quotaTree) bool = forall k string :: {has(qt.quotaNodes, k)} has(qt.quotaNodes, k) ==> qt.quotaNodes[k].sharedWeight >= 0
+
+// Property C02 per sibling: min(request, m) <= runtimeQuota <= max(request, m) with m = max(min, guarantee), and exactly
+// request / m in the two cases that do not take part in the sharing. Nodes outside the tree are untouched.
+// Not expressible in the spec language (needs a sum over the map): sum(runtimeQuota) <= totalResource when the minimums
+// fit, and that the surplus is exhausted or every request met (work conservation); order independence is a relational
+// (two-run) statement — what is proved is that the non-sharing siblings get a value that is a function of their own fields.
+// `option arith checked`: the property quantifies over 64-bit-scale values, so int64 overflow is checked here. Two
+// obligations are NOT discharged and are findings (F14): overflow#1 (line 133, totalSharedWeight += node.sharedWeight —
+// three siblings with the "unlimited" cpu max MaxInt64/2000 cores as default weight wrap the sum: nobody shares, or with
+// five siblings everybody gets the whole surplus) and overflow#2 (line 144, toPartitionResource -= node.runtimeQuota —
+// only with minimums at that scale). Everything else is proved assuming these two additions do not wrap.
+//@ func (*quotaTree).redistribution [C02]
+//@   requires treeOK(qt) && treeDomain(qt)
+//@   ensures #sharing: forall k string :: has(qt.quotaNodes, k) && qt.quotaNodes[k].request > qmin(qt.quotaNodes[k]) ==> qmin(qt.quotaNodes[k]) <= qt.quotaNodes[k].runtimeQuota && qt.quotaNodes[k].runtimeQuota <= qt.quotaNodes[k].request
+//@   ensures #lent: forall k string :: has(qt.quotaNodes, k) && qt.quotaNodes[k].request <= qmin(qt.quotaNodes[k]) && qt.quotaNodes[k].allowLentResource ==> qt.quotaNodes[k].runtimeQuota == qt.quotaNodes[k].request
+//@   ensures #kept: forall k string :: has(qt.quotaNodes, k) && qt.quotaNodes[k].request <= qmin(qt.quotaNodes[k]) && !qt.quotaNodes[k].allowLentResource ==> qt.quotaNodes[k].runtimeQuota == qmin(qt.quotaNodes[k])
+//@   ensures #others: forall q *quotaNode :: q.runtimeQuota != old(q.runtimeQuota) ==> (exists k string :: has(qt.quotaNodes, k) && qt.quotaNodes[k] == q)
+//@   ensures #ok: treeOK(qt) && treeDomain(qt)
+//@   option arith checked
+//@   option nopanic all
+//@   assert before call iterationForRedistribution: #complete: forall k string :: has(qt.quotaNodes, k) && qt.quotaNodes[k].request > qmin(qt.quotaNodes[k]) ==> (exists i int :: 0 <= i && i < len($arg2) && $arg2[i] == qt.quotaNodes[k])
+//@   modifies inferred
+//@   loop 1 invariant fresh(needAdjustQuotaNodes) && totalSharedWeight >= 0
+//@   loop 1 invariant #seenin: forall k string :: {$seen[k]} $seen[k] ==> has(qt.quotaNodes, k)
+//@   loop 1 invariant #done: forall k string :: {$seen[k]} $seen[k] ==> qt.quotaNodes[k].runtimeQuota == (qt.quotaNodes[k].request > qmin(qt.quotaNodes[k]) ? qmin(qt.quotaNodes[k]) : (qt.quotaNodes[k].allowLentResource ? qt.quotaNodes[k].request : qmin(qt.quotaNodes[k])))
+//@   loop 1 invariant #touched: forall q *quotaNode :: q.runtimeQuota != old(q.runtimeQuota) ==> (exists k string :: $seen[k] && has(qt.quotaNodes, k) && qt.quotaNodes[k] == q)
+//@   loop 1 invariant #adj: forall i int :: 0 <= i && i < len(needAdjustQuotaNodes) ==> needAdjustQuotaNodes[i] != nil && 0 <= needAdjustQuotaNodes[i].sharedWeight && needAdjustQuotaNodes[i].sharedWeight <= totalSharedWeight && needAdjustQuotaNodes[i].request > qmin(needAdjustQuotaNodes[i])
+//@   loop 1 invariant #adjin: forall i int :: 0 <= i && i < len(needAdjustQuotaNodes) ==> (exists k string :: $seen[k] && has(qt.quotaNodes, k) && qt.quotaNodes[k] == needAdjustQuotaNodes[i])
+//@   loop 1 invariant #complete: forall k string :: {$seen[k]} $seen[k] && qt.quotaNodes[k].request > qmin(qt.quotaNodes[k]) ==> (exists i int :: 0 <= i && i < len(needAdjustQuotaNodes) && needAdjustQuotaNodes[i] == qt.quotaNodes[k])
+
+// ---- quotaTree: exact map / field effects (C02) ----
+
+//@ func NewQuotaNode [C02]
+//@   ensures #fresh: fresh(result) && result != nil
+//@   ensures #fields: result.quotaName == quotaName && result.sharedWeight == sharedWeight && result.request == request && result.min == min && result.guarantee == guarantee && result.allowLentResource == allowLentResource && result.runtimeQuota == 0
+//@   modifies nothing
+
+//@ func NewQuotaTree [C02]
+//@   ensures #fresh: fresh(result) && fresh(result.quotaNodes)
+//@   ensures #empty: forall k string :: !has(result.quotaNodes, k)
+//@   ensures #ok: treeOK(result)
+//@   modifies nothing
+
+// insert never replaces an existing entry (so a node object is never shared or lost) and a new entry starts at runtimeQuota 0
+//@ func (*quotaTree).insert [C02]
+//@   requires treeOK(qt)
+//@   ensures #present: has(qt.quotaNodes, groupName)
+//@   ensures #new: !old(has(qt.quotaNodes, groupName)) ==> fresh(qt.quotaNodes[groupName]) && qt.quotaNodes[groupName].quotaName == groupName && qt.quotaNodes[groupName].sharedWeight == sharedWeight && qt.quotaNodes[groupName].request == request && qt.quotaNodes[groupName].min == min && qt.quotaNodes[groupName].guarantee == guarantee && qt.quotaNodes[groupName].allowLentResource == allowLentResource && qt.quotaNodes[groupName].runtimeQuota == 0
+//@   ensures #dup: old(has(qt.quotaNodes, groupName)) ==> qt.quotaNodes[groupName] == old(qt.quotaNodes[groupName])
+//@   ensures #others: forall k string :: k != groupName ==> has(qt.quotaNodes, k) == old(has(qt.quotaNodes, k)) && qt.quotaNodes[k] == old(qt.quotaNodes[k])
+//@   ensures #ok: treeOK(qt)
+//@   modifies contents(qt.quotaNodes)
+
+//@ func (*quotaTree).erase [C02]
+//@   requires treeOK(qt)
+//@   ensures #gone: !has(qt.quotaNodes, groupName)
+//@   ensures #others: forall k string :: k != groupName ==> has(qt.quotaNodes, k) == old(has(qt.quotaNodes, k)) && qt.quotaNodes[k] == old(qt.quotaNodes[k])
+//@   ensures #ok: treeOK(qt)
+//@   modifies contents(qt.quotaNodes)
+
+//@ func (*quotaTree).find [C02]
+//@   requires qt != nil
+//@   ensures #found: result0 == has(qt.quotaNodes, groupName)
+//@   ensures #node: result1 == (has(qt.quotaNodes, groupName) ? qt.quotaNodes[groupName] : nil)
+//@   modifies nothing
+
+// update*: exactly one field of exactly the named node changes (nothing when the name is absent); the map is not written
+//@ func (*quotaTree).updateMin [C02]
+//@   requires treeOK(qt)
+//@   ensures #set: has(qt.quotaNodes, groupName) ==> qt.quotaNodes[groupName].min == min
+//@   ensures #frame: forall q *quotaNode :: !(has(qt.quotaNodes, groupName) && q == qt.quotaNodes[groupName]) ==> q.min == old(q.min)
+//@   modifies all(quotaNode).min
+
+//@ func (*quotaTree).updateSharedWeight [C02]
+//@   requires treeOK(qt)
+//@   ensures #set: has(qt.quotaNodes, groupName) ==> qt.quotaNodes[groupName].sharedWeight == sharedWeight
+//@   ensures #frame: forall q *quotaNode :: !(has(qt.quotaNodes, groupName) && q == qt.quotaNodes[groupName]) ==> q.sharedWeight == old(q.sharedWeight)
+//@   modifies all(quotaNode).sharedWeight
+
+//@ func (*quotaTree).updateRequest [C02]
+//@   requires treeOK(qt)
+//@   ensures #set: has(qt.quotaNodes, groupName) ==> qt.quotaNodes[groupName].request == request
+//@   ensures #frame: forall q *quotaNode :: !(has(qt.quotaNodes, groupName) && q == qt.quotaNodes[groupName]) ==> q.request == old(q.request)
+//@   modifies all(quotaNode).request
+
+//@ func (*quotaTree).updateGuaranteed [C02]
+//@   requires treeOK(qt)
+//@   ensures #set: has(qt.quotaNodes, groupName) ==> qt.quotaNodes[groupName].guarantee == guarantee
+//@   ensures #frame: forall q *quotaNode :: !(has(qt.quotaNodes, groupName) && q == qt.quotaNodes[groupName]) ==> q.guarantee == old(q.guarantee)
+//@   modifies all(quotaNode).guarantee
